@@ -102,8 +102,10 @@ def src_compound(op, sym, wa, a, wb, b):
     da, pa, ea = operand(wa, a, "a")
     db, pb, eb = operand(wb, b, "b")
     nm = kname("ca", op, wa, a, wb, b)
-    return ("K uint64_t %s(uint64_t base, %s, %s) { S::g_base = base; %s %s auto& r = (%s %s= %s); env_log(7, (uint64_t)(std::addressof(r) == std::addressof(%s)), 0, 0); "
-            "return (uint64_t)%s.UNSAFE_unverified(); }" % (nm, da, db, pa, pb, ea, sym, eb, ea, ea))
+    # the plain expression a op= b is an lvalue designating a: the wrapped one must be an lvalue reference to the operand itself
+    return ("K uint64_t %s(uint64_t base, %s, %s) { S::g_base = base; %s %s constexpr bool isref = std::is_lvalue_reference_v<decltype(%s %s= %s)>; "
+            "auto&& r = (%s %s= %s); env_log(7, (uint64_t)(isref && std::addressof(r) == std::addressof(%s)), 0, 0); "
+            "return (uint64_t)%s.UNSAFE_unverified(); }" % (nm, da, db, pa, pb, ea, sym, eb, ea, sym, eb, ea, ea))
 
 
 def src_ref_compound(op, sym, a, b):
@@ -113,8 +115,8 @@ def src_ref_compound(op, sym, a, b):
 def src_incdec(op, wa, a):
     da, pa, ea = operand(wa, a, "a")
     nm = kname("id", op, wa, a)
-    e = {"preinc": "auto& r = ++%s; env_log(1, (uint64_t)r.UNSAFE_unverified(), (uint64_t)(std::addressof(r) == std::addressof(%s)), 0);" % (ea, ea),
-         "predec": "auto& r = --%s; env_log(1, (uint64_t)r.UNSAFE_unverified(), (uint64_t)(std::addressof(r) == std::addressof(%s)), 0);" % (ea, ea),
+    e = {"preinc": "constexpr bool isref = std::is_lvalue_reference_v<decltype(++%s)>; auto&& r = ++%s; env_log(1, (uint64_t)r.UNSAFE_unverified(), (uint64_t)(isref && std::addressof(r) == std::addressof(%s)), 0);" % (ea, ea, ea),
+         "predec": "constexpr bool isref = std::is_lvalue_reference_v<decltype(--%s)>; auto&& r = --%s; env_log(1, (uint64_t)r.UNSAFE_unverified(), (uint64_t)(isref && std::addressof(r) == std::addressof(%s)), 0);" % (ea, ea, ea),
          "postinc": "auto r = %s++; env_log(1, (uint64_t)r.UNSAFE_unverified(), std::is_same_v<decltype(r), %s>, 0);" % (ea, "tainted<%s, S>" % a.cxx if wa == "t" else "tainted_volatile<%s, S>" % a.cxx),
          "postdec": "auto r = %s--; env_log(1, (uint64_t)r.UNSAFE_unverified(), std::is_same_v<decltype(r), %s>, 0);" % (ea, "tainted<%s, S>" % a.cxx if wa == "t" else "tainted_volatile<%s, S>" % a.cxx)}[op]
     return "K uint64_t %s(uint64_t base, %s) { S::g_base = base; %s %s return (uint64_t)%s.UNSAFE_unverified(); }" % (nm, da, pa, e, ea)
